@@ -114,6 +114,7 @@ def run(ctx):
             if len(f) == 1 and isinstance(f[0], tuple) and isinstance(b, VInt):
                 if f[0][1] != b.lin:
                     ctx.violation("R-C02-CRCFEED", "feed-byte|partition=%s" % (key,), where, "a single byte fed to the digest is not the consumed byte")
+    check_push_discipline(ctx, an, outs, where)
     ctx.cov.update({"gates": len(gates), "push_outcomes": len(outs), "invariant": A.inv_info.get(NOD)})
     ctx.assumptions = [ASSUMPTIONS[k] for k in ("A1", "A2")]
     ctx.explanation = (
@@ -123,3 +124,215 @@ def run(ctx):
         "pad <= 3, pad <= withheld zeros, and the 0x1a end marker at step 3. A ghost counter shows every frame byte is fed to the digest "
         "exactly once and the compare happens 2 bytes before the end. How the code establishes the facts is irrelevant. Not decided: that "
         "the buffer content equals the canonical payload (escape/zero-withholding reconstruction).")
+
+
+
+# ---------------------------------------------------------------------------------------------------------
+# payload reconstruction: what reaches the buffer on every step
+def _norm(st, items):
+    """run-length normal form of a byte sequence: [('z', Lin count)] zero runs merged, [('b', Lin)] non-zero bytes"""
+    out = []
+    for k, v in items:
+        if k == "z":
+            if st.const_of(v) == 0 or st.prove_eq0(v):
+                continue
+            if out and out[-1][0] == "z":
+                out[-1] = ("z", out[-1][1] + v)
+            else:
+                out.append(("z", v))
+        else:
+            out.append((k, v))
+    return out
+
+
+def _byte_item(st, lin):
+    lo, hi = st.interval(lin)
+    if lo == 0 and hi == 0:
+        return ("z", Lin.const(1))
+    sg = lin.single()
+    vals = st.values(sg[0]) if sg and sg[1] == 1 and lin.c == 0 else None
+    if (lo is not None and lo > 0) or (vals is not None and 0 not in vals):
+        return ("b", lin)
+    return None
+
+
+def _seq_eq(st, a, b):
+    a, b = _norm(st, a), _norm(st, b)
+    if len(a) != len(b):
+        return False
+    for (ka, va), (kb, vb) in zip(a, b):
+        if ka != kb or not st.prove_eq0(va - vb):
+            return False
+    return True
+
+
+def _show(st, items):
+    return "[" + ", ".join(("0 x (%s)" % st.describe(v)) if k == "z" else st.describe(v) for k, v in _norm(st, items)) + "]"
+
+
+def check_push_discipline(ctx, an, outs, where):
+    """R-C02-PUSH: with W = number of withheld zeros (zero_cache), every successful step of the decoder satisfies
+         written ++ 0^W' == 0^W ++ E
+    where `written` are the bytes handed to Buffer::push on that path (in order) and E is the logical emission of the
+    transition (the transport-v1 unescaping table below).  At the end of a frame written == 0^(W - pad); at a frame start
+    the buffer is cleared and nothing is written afterwards."""
+    ctx.rule("R-C02-PUSH", "per decoder step: bytes written to the buffer followed by the zeros still withheld equal the zeros withheld "
+                           "before followed by the step's logical emission (data byte; n x 1b + byte after an aborted escape run; "
+                           "4 x 1b for the literal escape; k x 1b for the realigned end; nothing otherwise); at Ok(true) exactly "
+                           "withheld - pad zeros are written; a frame start leaves the buffer cleared")
+    ctx.rule("R-C02-DISPATCH", "escape payload dispatch: the literal branch is taken only for 1b1b1b1b, the restart only for 01010101, "
+                               "the end only for 1a..; the realign branch requires k leading 1b followed by 1a and keeps payload[k..]")
+    ESC = 0x1b
+    n_steps = 0
+    kinds = {}
+    for o in outs:
+        st, key, lab = o["st"], o["key"], o["label"]
+        if lab == "Err(OutOfMemory)":
+            continue
+        obj0, obj1 = o["obj0"], o["obj"]
+        post = an.variant_of(st, obj1)
+        zc0, zc1 = obj0.elems[an.i_zc].lin, obj1.elems[an.i_zc].lin
+        pushed = o["pushed"]
+        cleared = o["cleared_at"]
+        b = o["args"][2] if len(o["args"]) > 2 else None
+        if not isinstance(b, VInt):
+            ctx.violation("ANCHOR-MISSING", "push_byte byte arg", where, "push_byte's byte argument not found")
+            return
+        items = []
+        bad = None
+        for x in pushed[(cleared or 0):]:
+            it = _byte_item(st, x)
+            if it is None:
+                bad = x
+                break
+            items.append(it)
+
+        def fail(kind, msg):
+            ctx.oblig(False)
+            ctx.violation("R-C02-PUSH", "%s|from=%s|%s" % (kind, key, lab), where, msg)
+
+        def viol_dispatch(kind, msg):
+            ctx.oblig(False)
+            ctx.violation("R-C02-DISPATCH", "%s|%s" % (kind, lab), where, msg)
+
+        if bad is not None:
+            fail("unknown-byte", "a byte of unknown zero-ness (%s) is written to the buffer" % st.describe(bad))
+            continue
+        in_after = post not in (an.v_look, an.v_done)
+        in_before = key not in (an.v_look, an.v_done)
+        # ---- out of frame afterwards: buffer must be empty unless a frame was just completed
+        if post == an.v_look:
+            ctx.count("R-C02-PUSH")
+            ok = (cleared is not None and not items) or (key == an.v_look and not pushed and cleared is None)
+            ctx.oblig(ok)
+            if not ok:
+                fail("look-not-empty", "a path leaves the decoder searching for a start sequence without an empty buffer "
+                     "(written %r, cleared=%r)" % (pushed, cleared))
+            kinds["to-look"] = kinds.get("to-look", 0) + 1
+            continue
+        if post == an.v_done:
+            if lab != "Ok(true)":
+                continue        # reported by R-C02-DONEONLY
+            ctx.count("R-C02-PUSH")
+            pl = obj0.elems[an.i_state].pay[an.v_payload][an.i_payload] if key == an.v_payload else None
+            pad = pl.elems[1].lin if isinstance(pl, VArr) else None
+            ok = pad is not None and cleared is None and _seq_eq(st, items, [("z", zc0 - pad)])
+            ctx.oblig(ok)
+            if not ok:
+                fail("end", "at the end of a frame the buffer must receive exactly withheld - pad zeros "
+                     "(withheld %s, pad %s, written %s)" % (st.describe(zc0), pad is not None and st.describe(pad), _show(st, items)))
+            kinds["end"] = kinds.get("end", 0) + 1
+            n_steps += 1
+            continue
+        # ---- in frame afterwards
+        if not in_before or cleared is not None or (lab.startswith("Err(") and in_after):
+            # frame start (matcher completed, restart, or Done -> new frame)
+            ctx.count("R-C02-PUSH")
+            starts_ok = (cleared is not None or key == an.v_look) and not items and st.const_of(zc1) == 0 and (key != an.v_look or not pushed)
+            ctx.oblig(starts_ok)
+            if not starts_ok:
+                fail("frame-start", "a frame start must leave an empty buffer and no withheld zeros (cleared=%r, written after %s, withheld %s)"
+                     % (cleared, _show(st, items), st.describe(zc1)))
+            if key == an.v_payload:
+                pl = obj0.elems[an.i_state].pay[an.v_payload][an.i_payload]
+                vals = [st.const_of(e.lin) for e in pl.elems[:3]] + [st.const_of(b.lin)]
+                ctx.count("R-C02-DISPATCH")
+                ok = vals == [1, 1, 1, 1]
+                ctx.oblig(ok)
+                if not ok:
+                    viol_dispatch("restart", "the restart branch is taken for an escape payload other than 01010101 (%r)" % (vals,))
+            kinds["start"] = kinds.get("start", 0) + 1
+            continue
+        if lab != "Ok(false)":
+            continue
+        # ---- ordinary in-frame step: determine the logical emission E
+        sg = b.lin.single()
+        bvals = st.values(sg[0]) if sg and sg[1] == 1 and b.lin.c == 0 else None
+        is_esc = bvals is not None and bvals == frozenset([ESC])
+        not_esc = bvals is not None and ESC not in bvals
+        bitem = _byte_item(st, b.lin)
+        E = None
+        kind = None
+        if key == an.v_normal:
+            if is_esc:
+                E, kind = [], "normal-esc"
+            elif not_esc and bitem is not None:
+                E, kind = [bitem], "normal-data"
+        elif key == an.v_payload:
+            e0 = obj0.elems[an.i_state]
+            step0 = st.const_of(e0.pay[an.v_payload][an.i_step].lin)
+            pl = e0.pay[an.v_payload][an.i_payload]
+            if step0 is not None and step0 < 3:
+                E, kind = [], "payload-collect"
+            elif step0 == 3 and isinstance(pl, VArr):
+                p = [e.lin for e in pl.elems[:3]] + [b.lin]
+                pv = [st.const_of(x) for x in p]
+                if post == an.v_normal:
+                    kind = "literal"
+                    E = [("b", Lin.const(ESC))] * 4
+                    ctx.count("R-C02-DISPATCH")
+                    ok = pv == [ESC] * 4
+                    ctx.oblig(ok)
+                    if not ok:
+                        viol_dispatch("literal", "the literal-escape branch (back to normal parsing) is taken for a payload other than 1b1b1b1b (%r)" % (pv,))
+                elif post == an.v_payload:
+                    kind = "realign"
+                    e1 = obj1.elems[an.i_state]
+                    step1 = st.const_of(e1.pay[an.v_payload][an.i_step].lin)
+                    pl1 = e1.pay[an.v_payload][an.i_payload]
+                    ctx.count("R-C02-DISPATCH")
+                    ok = step1 is not None and 1 <= step1 <= 3 and isinstance(pl1, VArr)
+                    if ok:
+                        k = 4 - step1
+                        ok = pv[:k] == [ESC] * k and pv[k] == 0x1a and all(st.prove_eq0(pl1.elems[i].lin - p[k + i]) for i in range(step1))
+                        E = [("b", Lin.const(ESC))] * k
+                    ctx.oblig(ok)
+                    if not ok:
+                        viol_dispatch("realign", "the realign branch must see k x 1b then 1a and keep payload[k..] as the first 4-k bytes of the "
+                                      "new escape payload (payload %r, new step %r)" % (pv, step1))
+                        continue
+        else:
+            # ParsingEscChars(n)
+            e0 = obj0.elems[an.i_state]
+            n = e0.pay[key][0].lin if e0.pay.get(key) else None
+            if is_esc:
+                E, kind = [], "esc-run"
+            elif not_esc and n is not None and bitem is not None:
+                nc = st.const_of(n)
+                if nc is not None:
+                    E, kind = [("b", Lin.const(ESC))] * nc + [bitem], "esc-abort"
+        ctx.count("R-C02-PUSH")
+        if E is None:
+            fail("unsplit", "the path from state #%s does not determine the transition (byte %s)" % (key, st.describe(b.lin)))
+            continue
+        ok = _seq_eq(st, items + [("z", zc1)], [("z", zc0)] + E)
+        ctx.oblig(ok)
+        kinds[kind] = kinds.get(kind, 0) + 1
+        n_steps += 1
+        if not ok:
+            fail(kind, "step `%s`: written %s then %s withheld, expected %s withheld before then %s"
+                 % (kind, _show(st, items), st.describe(zc1), st.describe(zc0), _show(st, E)))
+    for need in ("normal-data", "normal-esc", "esc-run", "esc-abort", "payload-collect", "literal", "realign", "end", "start", "to-look"):
+        if not kinds.get(need):
+            ctx.violation("BELOW-FLOOR", "R-C02-PUSH|" + need, where, "no `%s` transition found among the decoder's paths" % need)
+    ctx.cov["push_steps"] = kinds
